@@ -201,3 +201,13 @@ claim("C36", "def-use tracing from the reported names to the accumulated terms; 
       "of the normalised residual (slot 0) and of the sample itself (slot 1). The sample averaging (StatCalculator, jnp.mean/std), the "
       "printed table and the agreement of the two implementations (which differ by design in what they ignore) are not decided.",
       TRUST, "DESIGN.md section 9.8")
+
+claim("C29", "abstract interpretation of the row-wise array updates into a symbolic one-step transition; term comparison (semigroup consistency, closed-form covariance) with sympy as normaliser; structural check of the generic recurrence",
+      "Decides only the one-step clause: the transition (mean map F(dt), noise map G(dt)) of the Wiener, Ornstein-Uhlenbeck and "
+      "integrated Wiener process is extracted from the code as terms; two steps dt1, dt2 equal one step dt1+dt2 in mean map and "
+      "covariance (necessary for exactness on every, also non-uniform, grid), the Wiener and integrated-Wiener step covariances equal "
+      "the closed form of the documented SDE (with asperity), the OU stationary variance matches its default initial state, the generic "
+      "generator implements res_(i+1) = drift_i res_i + diffamp_i xi_i and the wrappers/constructors hand their terms over in order. "
+      "Sampled covariances over whole grids, time-varying parameters beyond this structure and numerical accuracy are not decided.",
+      TRUST + " sympy 1.14 (offline wheelhouse) as algebraic normaliser; the SDE covariance table is the checker's own (textbook formulas).",
+      "DESIGN.md section 9.8")
